@@ -23,6 +23,7 @@ use std::io::Write;
 
 use super::{
   class_inheritance,
+  iter::MAX_COLLECT_RESERVE,
   error::{INDEX_ERROR_NAME, TYPE_ERROR_NAME},
 };
 
@@ -346,7 +347,7 @@ impl LyNative for TupleCollect {
   fn call(&self, hooks: &mut Hooks, args: &[Value]) -> Call {
     let mut iter = args[0].to_obj().to_enumerator();
     let mut list = List::new(match iter.size_hint() {
-      Some(size) => hooks.manage_obj(VecBuilder::cap_only(size)),
+      Some(size) => hooks.manage_obj(VecBuilder::cap_only(size.min(MAX_COLLECT_RESERVE))),
       None => hooks.manage_obj(list!()),
     });
 
